@@ -15,6 +15,7 @@ Template directives (all are `//@...` comment lines inside an ordinary .rs file)
       //@before <k> <text>     following plain lines inserted before the k-th line starting with <text>
       //@after <k> <text>      ... after that line
       //@rewrite <Rule> [...]  apply a named mechanical rewrite rule (lib/rules.py)
+      //@prelude               following plain lines (ghost code) are placed at the start of the body
       //@assume                keep the contract, replace the body by an external_body stub
   //@arms <src> <Impl>::<name> <scrutinee>          split `match <scrutinee> {..}` into one fn per arm
       (same sub-directives; //@contract is shared by all arms and by the generated dispatcher)
@@ -48,6 +49,7 @@ class Spec:
         self.rewrites = []
         self.assume = False
         self.extra = []
+        self.prelude = []
 
     def clone_for_arm(self, arm):
         s = Spec()
@@ -55,7 +57,9 @@ class Spec:
         s.attrs = list(self.attrs)
         s.contract = list(self.contract)
         s.rewrites = list(self.rewrites)
+        s.prelude = list(self.prelude)
         if arm:
+            s.prelude += arm.prelude
             s.loops = arm.loops
             s.inserts = arm.inserts
             s.rewrites += arm.rewrites
@@ -166,6 +170,8 @@ class Expander:
                     sink = cur.contract
                 elif key == 'extra':
                     sink = cur.extra
+                elif key == 'prelude':
+                    sink = cur.prelude
                 elif key == 'loop':
                     sink = cur.loops.setdefault(int(arg), [])
                 elif key in ('before', 'after'):
@@ -192,8 +198,17 @@ class Expander:
         """Apply rewrite rules, loop clauses and ghost insertions to a body (text inside braces)."""
         text = rsx.strip_comments(body_text)
         for rw in spec.rewrites:
-            text = rules.apply(rw[0], text, rw[1:], label)
-            self.rules_used.add(rw[0])
+            name = rw[0]
+            if name.endswith('?'):
+                # optional rule: applied where its pattern occurs, skipped otherwise
+                try:
+                    text = rules.apply(name[:-1], text, rw[1:], label)
+                    self.rules_used.add(name[:-1])
+                except LostAnchor:
+                    pass
+            else:
+                text = rules.apply(name, text, rw[1:], label)
+                self.rules_used.add(name)
         # ghost insertions first (line based), then loop clauses (bracket based)
         for where, k, anchor, glines in spec.inserts:
             ls = text.split('\n')
@@ -204,6 +219,8 @@ class Expander:
             pos = idx if where == 'before' else idx + 1
             ls[pos:pos] = glines
             text = '\n'.join(ls)
+        if spec.prelude:
+            text = '\n' + '\n'.join(spec.prelude) + '\n' + text
         if spec.loops:
             b = rsx.Body(text)
             loops = b.loops()
